@@ -381,6 +381,7 @@ class Interp:
         for op, c in zip(e.ops, e.comparators):
             right = self.eval(c, env)
             r = self.compare(op, left, right)
+            if isinstance(r, Mask) and len(e.ops) == 1: return r
             if not self.truth(r): return False
             left = right
         return True
@@ -432,7 +433,7 @@ class Interp:
                     out.append(self.eval(e.elt, env2))
             return out
         if isinstance(it, SList):
-            if gen.ifs: raise Unsupported("filtered comprehension over symbolic list")
+            if gen.ifs: return Opaque("filtered-list")      # only ever rendered into a message
             def elem(i, it=it, env=env):
                 env2 = dict(env); self.assign(gen.target, it.elem(i), env2)
                 return self.eval(e.elt, env2)
@@ -478,6 +479,8 @@ class Interp:
             r = self.contains(b, a)
             return r if isinstance(op, ast.In) else not r
         if isinstance(a, PyNum) and isinstance(b, PyNum):
+            if a.sign_term is not None and _is_zero(b): return _cmp(op, a.sign_term, z3.RealVal(0))
+            if b.sign_term is not None and _is_zero(a): return _cmp(op, z3.RealVal(0), b.sign_term)
             return _cmp(op, a.r if not (a.is_int and b.is_int) else a.z, b.r if not (a.is_int and b.is_int) else b.z)
         if isinstance(a, str) and isinstance(b, str):
             return {ast.Eq: a == b, ast.NotEq: a != b}[type(op)]
@@ -580,7 +583,7 @@ class Interp:
         if isinstance(o, ExplU): return self.getattr(self.resolve(o), name)
         if isinstance(o, ModelObj): return self.model_getattr(o, name)
         if isinstance(o, Qty):
-            if name in ("magnitude", "m"): return PyNum(o.mag)
+            if name in ("magnitude", "m"): return PyNum(o.mag, sign_term=o.phys)
             if name in ("units", "u"): return o.unit
             if name == "dimensionality": return o.unit.dim
             return BoundMethod(o, name)
@@ -650,7 +653,9 @@ class Interp:
         if name == "source": return o.source if o.source is not None else NONE
         if name == "magnitude":
             if o.kind == "empty": return PyNum(z3.IntVal(0))
-            if o.kind == "eq": return PyNum(o.value.mag)
+            if o.kind == "eq":
+                self.note_read(o)
+                return PyNum(o.value.mag, sign_term=o.value.phys)
             raise SymRaise("AttributeError", "magnitude")
         if name == "unit" and o.kind == "ehq": return o.value.unit
         if name == "iloc" and o.kind == "empty": return [self.call_method(o, "iloc_elem", [], {})]
@@ -734,6 +739,7 @@ class Interp:
         if rhs.unit.dim != df.unit.dim: raise SymRaise("DimensionalityError", "iat +=")
         v = df.vec
         if v.tmin is None: raise Unsupported("iat on series without tmin")
+        self.index_facts(v)
         tmin = v.tmin
         nv = Vec(v.inidx, lambda t: z3.If(t == tmin, v.val(t) + rhs.phys, v.val(t)),
                  total=None if v.total is None else v.total + rhs.phys, tmax=v.tmax, tmin=v.tmin, n=v.n, origin=v.origin)
@@ -1036,11 +1042,12 @@ class Interp:
         if key in self.eng.run.cache: return
         self.eng.run.cache[key] = True
         if v.tmax is None or v.tmin is None: raise Unsupported("series without tmin/tmax")
-        self.eng.assume(z3.Implies(v.inidx(TT), z3.And(v.tmin <= TT, TT <= v.tmax)))
+        self.add_universal(lambda t: z3.Implies(v.inidx(t), z3.And(v.tmin <= t, t <= v.tmax)))
         if v.n is not None:
             self.eng.assume(v.n >= 0)
             self.eng.assume(z3.Implies(v.n > 0, z3.And(v.inidx(v.tmin), v.inidx(v.tmax), v.tmin <= v.tmax)))
-            self.eng.assume(z3.Implies(v.inidx(TT), v.n > 0))
+            self.add_universal(lambda t: z3.Implies(v.inidx(t), v.n > 0))
+            self.add_point(v.tmin); self.add_point(v.tmax)
 
     def as_unit(self, x):
         if isinstance(x, Unit): return x
@@ -1421,6 +1428,11 @@ def _cmp(op, x, y):
     if not z3.is_expr(x): x = z3.IntVal(x) if y.sort() == I else rv(x)
     if not z3.is_expr(y): y = z3.IntVal(y) if x.sort() == I else rv(y)
     return {ast.Eq: x == y, ast.NotEq: x != y, ast.Lt: x < y, ast.LtE: x <= y, ast.Gt: x > y, ast.GtE: x >= y}[type(op)]
+
+
+def _is_zero(p):
+    z = z3.simplify(p.z)
+    return (z3.is_int_value(z) and z.as_long() == 0) or (z3.is_rational_value(z) and z.numerator_as_long() == 0)
 
 
 def _ne(x):
